@@ -119,14 +119,17 @@ CLAIMS['C16'] = dict(
     note="Assumed: ElementTree returns elements in document order; float() and str.split() uninterpreted; np.array([x,y,z]).T stacks columns.",
     technique='contract-based deductive verification against an abstract parser result (own VC generator, z3 E-matching) + bounded generated documents')
 CLAIMS['C17'] = dict(
-    category='other',
+    category='proof',
     text="max_bond_length is proved equal to r1 + r2 + 0.45*[a non-metal is involved] for all element pairs of the real COVALENT_RADII / "
-         "NON_METALS tables (symbolic element names) and symmetric. The pair enumeration i<j of detect_bonds, the use of the 27 neighbour "
-         "images and shift / reorder invariance are only checked with a stated bound on the real code against an independent minimum-image "
-         "computation over 125 images (9 409 cutoff pairs exhaustively; ~430 generated structures with pairs at cutoff +/- 1e-6 through "
-         "faces, edges and corners).",
-    note="Level 'other': the loops of detect_bonds are not under invariants yet; bridge lemma G2 (27 images suffice for widths > cutoff) assumed.",
-    technique='contract-based deductive verification of the cutoff rule (z3) + bounded comparison with an independent minimum-image rule')
+         "NON_METALS tables (symbolic element names) and symmetric. Both nested loops of detect_bonds are under inductive invariants (ghost "
+         "rank of a pair): for structures of any size, with and without a cell, the returned array lists exactly the pairs i<j for which the "
+         "code's distance test `np.any(cdist(pos[i] + uc_offsets, [pos[j]]) < max_bond_length(el[i], el[j]))` holds, each pair once. What the "
+         "numpy / scipy composite computes (smallest distance over the listed offsets), the 27 vectors of uc_neighbor_offsets, and shift / "
+         "reorder invariance are checked with a stated bound on the real code against an independent minimum-image computation over 125 "
+         "images (9 409 cutoff pairs exhaustively; ~430 generated structures with pairs at cutoff +/- 1e-6 through faces, edges and corners).",
+    note="Assumed: the numpy/scipy composite of the distance test as an uninterpreted function of (position i, offsets, position j, cutoff); "
+         "bridge lemma G2 (27 images suffice for widths > cutoff); A2 reals.",
+    technique='contract-based deductive verification (cutoff rule and both pair loops under invariants, z3) + bounded comparison with an independent minimum-image rule')
 CLAIMS['C19'] = dict(
     category='other',
     text="Proved for all inputs: helpers.typekey returns the tuple or its reverse, is reversal invariant and two tuples have the same key iff "
